@@ -1,13 +1,27 @@
 """C20 - malformed input is reported, not crashed on.
 
 Fault enumeration: valid seed documents of every text format are corrupted (truncation at every byte,
-deleted / duplicated bytes, lines and tags, inserted brackets / tags, NUL and invalid UTF-8), kept only if
-an independent parser of the format rejects them, and given to the REAL graphtage.__main__.main() as first
-or second file.  The worker records what main() did (status, stdout, stderr, escaping exception) and - by
-wrapping the file type's build_tree from outside - the exception raised inside the loader.
+deleted / duplicated / flipped / zeroed bytes, deleted / duplicated lines and tags, swapped and renamed tags,
+mismatched and dropped delimiters, inserted brackets / tags, NUL and invalid UTF-8, re-encodings and BOMs),
+kept only if an independent parser of the format rejects them, and given to the REAL
+graphtage.__main__.main() as first or second file.  The worker records what main() did (status, stdout,
+stderr, escaping exception) and - by wrapping the file type's build_tree from outside - the exception
+raised inside the loader.
 
-No verdict is computed here: `holds_C20`, `corr_C20`, `in_raises`, the known-finding class predicates
-and `handler_total` are Gallina functions evaluated with vm_compute.
+No verdict is computed here: `holds_C20`, `corr_C20`, `in_raises`, `handler_total` and `failures` are
+Gallina functions evaluated with vm_compute.
+
+The main theorem C20_full is unconditional for the handlers translated from the current source: when a
+handler stops covering a class of HandlersSpec.raises_table, GT.HandlersProofs no longer compiles
+(st['broken'], stage 'proof'); the models still build, the enumeration below runs and the failing file is
+reported as the violation.  No finding is open for C20, so nothing is suppressed: every failing case is a
+violation.  (Entries of known_findings.json with a status other than "open" are ignored; an OPEN entry
+would need a class predicate in HandlersSpec.v and a carve-out in the theorem - there is none, so it is
+logged and suppresses nothing.)
+
+Out of the property's domain, opt-in with C20_BINARY_PLIST=1: corruptions of BINARY plists (the property
+is about text formats).  A binary plist whose trailer declares a huge object count makes plistlib raise
+MemoryError, which escapes main(); with the option on the check reports it.
 """
 import ast as pyast
 import json
@@ -21,18 +35,16 @@ from harness import common
 sys.path.insert(0, os.path.join(common.VERIF, 'translator'))
 import py2coq          # noqa: E402
 import gen_handlers    # noqa: E402
-# until the generator is registered in py2coq.MODULES by the framework owner, register it for this process
-py2coq.MODULES.setdefault('HandlersGen', gen_handlers.gen_handlers)
+py2coq.MODULES.setdefault('HandlersGen', gen_handlers.gen_handlers)     # registered in py2coq.MODULES; kept as a guard
 
 PROP = 'C20'
-THEOREMS = ['C20_class', 'C20_ft', 'C20_all', 'C20_partial', 'C20_main_path', 'C20_escape',
-            'C20_message_names_file', 'C20_total_sound', 'C20_yaml']
+THEOREMS = ['C20_class', 'C20_ft', 'C20_all', 'C20_full', 'C20_table_total', 'C20_transfer', 'C20_main_path',
+            'C20_escape', 'C20_message_names_file', 'C20_total_sound']
 HEADER = ('From Coq Require Import String List Bool ZArith.\nRequire Import GT.PyBase GT.HandlersSpec.\n'
           'Import ListNotations.\nOpen Scope string_scope.\n')
 MODEL_HEADER = 'Require Import GTgen.HandlersGen GT.HandlersModel.\n'
 TEXT_TYPES = ['json', 'json5', 'yaml', 'xml', 'html', 'plist']
 EXT = {'json': 'json', 'json5': 'json5', 'yaml': 'yaml', 'xml': 'xml', 'html': 'html', 'plist': 'plist'}
-KF_CLASSES = ['kf_json5_format_spec', 'kf_plist_uncaught', 'kf_json_unicode', 'kf_xml_encoding']
 
 
 # ------------------------------------------------------------------ implementation side (worker)
@@ -150,46 +162,110 @@ INSERTS = {'json': [b'{', b'}', b'[', b']', b'"', b','], 'json5': [b'{', b'}', b
            'xml': [b'<x>', b'</x>', b'<', b'>', b'&', b'"'], 'html': [b'<p>', b'</p>', b'<', b'>', b'&', b'"'],
            'plist': [b'<dict>', b'</dict>', b'<key>', b'</array>', b'<', b'&', b'<integer>x</integer>', b'<key>k</key>']}
 BAD_BYTES = [b'\x00', b'\xff', b'\xc3', b'\x80', b'\xed\xa0\x80']
+# a delimiter replaced by one that does not match its partner
+MISMATCH = {ord('{'): b'[', ord('}'): b']', ord('['): b'{', ord(']'): b'}', ord('"'): b"'", ord("'"): b'"',
+            ord('<'): b'>', ord('>'): b'<', ord(':'): b',', ord(','): b':', ord('/'): b'\\', ord('='): b' ', ord('&'): b';',
+            ord(';'): b'&', ord('-'): b'+', ord('?'): b'!', ord('!'): b'?'}
+ENCODINGS = ['utf-16', 'utf-16-le', 'utf-16-be', 'utf-32', 'latin-1', 'cp1252', 'utf-7']
+BOMS = [b'\xef\xbb\xbf', b'\xff\xfe', b'\xfe\xff', b'\xff\xfe\x00\x00']
 TAG = re.compile(rb'<[^<>]*>')
+ELEMENT = re.compile(rb'<(string|integer|real|key|date|data)>([^<]*)</(string|integer|real|key|date|data)>')
+PLIST_TAGS = [b'string', b'integer', b'real', b'key', b'date', b'data', b'array', b'dict', b'true']
+OPEN_TAG = re.compile(rb'<([A-Za-z][A-Za-z0-9]*)')
+
+# priority of a corruption kind in the quick tier: 0 = always taken, 1 = sampled first, 2 = sampled last
+ALWAYS, FIRST, LAST = 0, 1, 2
 
 
-def corruptions(ft, doc):
-    """All (kind, bytes) corruptions of one document, delimiter-related ones flagged as priority."""
+def corruptions(ft, doc, binary=False):
+    """All (kind, bytes, priority) corruptions of one document."""
     out = []
     n = len(doc)
     for k in range(n):
-        out.append((f'truncate@{k}', doc[:k], True))
+        out.append((f'truncate@{k}', doc[:k], FIRST if binary else ALWAYS))
     for k in range(n):
-        pri = doc[k] in DELIMS[ft]
+        pri = FIRST if (binary or doc[k] in DELIMS[ft]) else LAST
         out.append((f'delete@{k}', doc[:k] + doc[k + 1:], pri))
         out.append((f'duplicate@{k}', doc[:k + 1] + doc[k:], pri))
+        for x in (0x01, 0x80):
+            out.append((f'flip{x:02x}@{k}', doc[:k] + bytes([doc[k] ^ x]) + doc[k + 1:], FIRST if binary else LAST))
+        out.append((f'zero@{k}', doc[:k] + b'\x00' + doc[k + 1:], FIRST if binary else LAST))
+        if binary:
+            out.append((f'ff@{k}', doc[:k] + b'\xff' + doc[k + 1:], FIRST))
+    if binary:
+        return out
+    for k in range(n):
+        if doc[k] in MISMATCH and doc[k] in DELIMS[ft]:
+            out.append((f'mismatch@{k}', doc[:k] + MISMATCH[doc[k]] + doc[k + 1:], FIRST))
+    for d in sorted(set(doc) & set(DELIMS[ft]) - set(b' \n')):
+        ch = bytes([d])
+        out.append((f'drop-all{ch!r}', doc.replace(ch, b''), ALWAYS))
+        i, j = doc.find(ch), doc.rfind(ch)
+        out.append((f'drop-first{ch!r}', doc[:i] + doc[i + 1:], ALWAYS))
+        out.append((f'drop-last{ch!r}', doc[:j] + doc[j + 1:], ALWAYS))
     for k in range(n + 1):
         for ins in INSERTS[ft]:
-            out.append((f'insert{ins!r}@{k}', doc[:k] + ins + doc[k:], False))
+            out.append((f'insert{ins!r}@{k}', doc[:k] + ins + doc[k:], LAST))
         for ins in BAD_BYTES:
-            out.append((f'insert{ins!r}@{k}', doc[:k] + ins + doc[k:], False))
+            out.append((f'insert{ins!r}@{k}', doc[:k] + ins + doc[k:], LAST))
     lines = doc.split(b'\n')
     if len(lines) > 2:
         for k in range(len(lines)):
-            out.append((f'delete-line@{k}', b'\n'.join(lines[:k] + lines[k + 1:]), True))
-            out.append((f'duplicate-line@{k}', b'\n'.join(lines[:k + 1] + lines[k:]), True))
+            out.append((f'delete-line@{k}', b'\n'.join(lines[:k] + lines[k + 1:]), ALWAYS))
+            out.append((f'duplicate-line@{k}', b'\n'.join(lines[:k + 1] + lines[k:]), ALWAYS))
     if ft in ('xml', 'html', 'plist'):
         tags = list(TAG.finditer(doc))
         for i, m in enumerate(tags):
-            out.append((f'delete-tag@{m.start()}', doc[:m.start()] + doc[m.end():], True))
-            out.append((f'duplicate-tag@{m.start()}', doc[:m.end()] + doc[m.start():], True))
+            out.append((f'delete-tag@{m.start()}', doc[:m.start()] + doc[m.end():], ALWAYS))
+            out.append((f'duplicate-tag@{m.start()}', doc[:m.end()] + doc[m.start():], ALWAYS))
             if i + 1 < len(tags):
                 m2 = tags[i + 1]
                 out.append((f'swap-tags@{m.start()}', doc[:m.start()] + m2.group(0) + doc[m.end():m2.start()]
-                            + m.group(0) + doc[m2.end():], True))
+                            + m.group(0) + doc[m2.end():], ALWAYS))
         for m in re.finditer(rb'<(integer|real)>([^<]*)</', doc):
-            out.append((f'non-number@{m.start(2)}', doc[:m.start(2)] + b'x' + doc[m.end(2):], True))
+            out.append((f'non-number@{m.start(2)}', doc[:m.start(2)] + b'x' + doc[m.end(2):], ALWAYS))
+        # an opening tag renamed (its closing tag no longer matches)
+        for m in OPEN_TAG.finditer(doc):
+            out.append((f'rename-open-tag@{m.start(1)}', doc[:m.start(1)] + b'zz' + doc[m.end(1):], ALWAYS))
+    if ft == 'plist':
+        # a whole scalar element given another plist element name: <string>x</string> -> <date>x</date> ...
+        for m in ELEMENT.finditer(doc):
+            if m.group(1) != m.group(3):
+                continue
+            for t in PLIST_TAGS:
+                if t != m.group(1):
+                    out.append((f'retag-{t.decode()}@{m.start()}', doc[:m.start()] + b'<' + t + b'>' + m.group(2)
+                                + b'</' + t + b'>' + doc[m.end():], ALWAYS))
     if ft in ('json', 'json5'):
         # a multi-byte character cut in the middle, at the very end of an otherwise complete prefix
         for k in range(n):
             if doc[k] >= 0x80:
-                out.append((f'cut-char@{k}', doc[:k + 1] if doc[k] >= 0xc0 else doc[:k], True))
+                out.append((f'cut-char@{k}', doc[:k + 1] if doc[k] >= 0xc0 else doc[:k], ALWAYS))
+    # the same text in another encoding / behind a byte order mark
+    try:
+        text = doc.decode('utf-8')
+    except UnicodeDecodeError:
+        text = None
+    if text is not None:
+        for enc in ENCODINGS:
+            try:
+                out.append((f'reencode-{enc}', text.encode(enc), ALWAYS))
+            except UnicodeEncodeError:
+                out.append((f'reencode-{enc}-replace', text.encode(enc, 'replace'), ALWAYS))
+        if ft in ('xml', 'html', 'plist'):
+            for enc in (b'UTF-16', b'US-ASCII', b'TF-8', b'', b'utf8 ', b'EBCDIC'):
+                out.append((f'declare-{enc.decode()}', doc.replace(b'encoding="UTF-8"', b'encoding="' + enc + b'"'), ALWAYS))
+    for bom in BOMS:
+        out.append((f'bom-{bom.hex()}', bom + doc, ALWAYS))
     return out
+
+
+def binary_plist_seeds():
+    import plistlib
+    return [plistlib.dumps({'name': 'Zo\u00eb', 'n': 3, 'r': 1.5, 't': True, 'list': [1, 'two', {'k': 'v'}], 'big': 2 ** 40, 'neg': -5},
+                           fmt=plistlib.FMT_BINARY),
+            plistlib.dumps([1, 2, {'a': 'b'}, 'x' * 20], fmt=plistlib.FMT_BINARY),
+            plistlib.dumps([1], fmt=plistlib.FMT_BINARY)]
 
 
 def rejected(ft, data):
@@ -216,41 +292,47 @@ def rejected(ft, data):
         return True
 
 
-def gen_cases(tier, rng, per_format):
-    """Returns a list of case dicts {ft, pos, kind, seed, bad(hex), good(hex)}."""
+def gen_cases(tier, rng, per_format, binary_plist=False):
+    """Returns (list of case dicts {ft, pos, kind, seed_doc, bad(hex), good(hex)}, statistics).
+    quick: every corruption of priority ALWAYS (truncation at every byte of every seed, lines, tags, retags,
+    dropped delimiters, encodings) plus a seeded sample of `per_format` others per format (FIRST before LAST);
+    thorough: everything.  binary_plist: the out-of-domain binary plist seeds instead of the text formats."""
     cases = []
     stats = {}
-    for ft in TEXT_TYPES:
-        docs = seeds()[ft]
+    for ft in (['plist'] if binary_plist else TEXT_TYPES):
+        docs = binary_plist_seeds() if binary_plist else seeds()[ft]
         cands = []
         for si, doc in enumerate(docs):
-            for kind, data, pri in corruptions(ft, doc):
+            for kind, data, pri in corruptions(ft, doc, binary=binary_plist):
                 cands.append((si, kind, data, pri))
-        seen = set()
+        seen = set(docs)                  # a corruption equal to a seed is no corruption
         uniq = []
-        for c in cands:
+        for c in sorted(cands, key=lambda c: c[3]):           # stable: keeps the highest priority of equal bytes
             if c[2] not in seen:
                 seen.add(c[2])
                 uniq.append(c)
         if tier == 'quick':
-            pri = [c for c in uniq if c[3]]
-            rest = [c for c in uniq if not c[3]]
-            rng.shuffle(pri)
-            rng.shuffle(rest)
+            groups = {q: [c for c in uniq if c[3] == q] for q in (ALWAYS, FIRST, LAST)}
+            rng.shuffle(groups[FIRST])
+            rng.shuffle(groups[LAST])
             cap = per_format // 2 if ft == 'json5' else per_format   # the json5 library is slow (pure Python)
-            pick = pri[:cap * 2 // 3]
-            pick += rest[:max(0, cap - len(pick))]
+            pick = groups[ALWAYS] + groups[FIRST][:cap * 2 // 3]
+            pick += groups[LAST][:max(0, cap - min(len(groups[FIRST]), cap * 2 // 3))]
         else:
             pick = uniq
         kept = 0
+        kinds = {}
         for si, kind, data, _ in pick:
             if not rejected(ft, data):
                 continue
             kept += 1
+            kk = re.sub(r"[@'].*", '', kind).replace('insertb', 'insert')
+            kinds[kk] = kinds.get(kk, 0) + 1
             good = docs[(si + 1) % len(docs)]
             for pos in (1, 2):
                 cases.append({'ft': ft, 'pos': pos, 'kind': kind, 'seed_doc': si, 'bad': data.hex(), 'good': good.hex()})
-        stats[ft] = {'candidates': len(uniq), 'tried': len(pick), 'rejected_by_independent_parser': kept}
+        stats[ft] = {'seed_documents': len(docs), 'candidates': len(uniq), 'tried': len(pick),
+                     'rejected_by_independent_parser': kept, 'by_kind': kinds}
     return cases, stats
 
 
@@ -315,13 +397,14 @@ def parse_coq_value(s):
 
 # ------------------------------------------------------------------ check
 
-def open_classes():
-    kfs = [f for f in common.known_findings(PROP) if f.get('status') == 'open']
-    if os.environ.get('C20_DEV_KNOWN') == '1':
-        p = os.path.join(common.VERIF, 'corpus', 'C20.known.json')
-        if os.path.exists(p):
-            kfs += [f for f in json.load(open(p))['findings'] if f['property'] == PROP and f.get('status') == 'open']
-    return [f for f in kfs if f.get('class') in KF_CLASSES]
+def note_open_findings(run):
+    """No finding is open for C20 and HandlersSpec.v holds no class predicate: nothing is ever suppressed.
+    Entries with any other status ("fixed: ...") are ignored, whatever their `class` field names."""
+    unknown = [f for f in common.known_findings(PROP) if str(f.get('status', '')).strip() == 'open']
+    for f in unknown:
+        common.log(f'C20: known_findings.json lists {f.get("id")} as open with class {f.get("class")!r}, which has no '
+                   f'predicate in HandlersSpec.v: it suppresses nothing')
+    run.cov['open_findings_without_class_predicate'] = [f.get('id') for f in unknown]
 
 
 def attrs_to_record():
@@ -331,9 +414,9 @@ def attrs_to_record():
         return list(gen_handlers.CANDIDATE_ATTRS)
 
 
-def run_cases(run, wd, cases, st, kfs, attrs, tag='cases'):
+def run_cases(run, wd, cases, st, attrs, tag='cases'):
     """Drive the implementation on the cases and evaluate the Gallina verdicts.
-    Returns (records kept, holds-bad, corr-bad, not-in-raises, {kf class: indices where it holds})."""
+    Returns (records kept, holds-bad, corr-bad, not-in-raises, loader-accepted)."""
     items = [dict(c, dir=wd.file('impl'), name=f'c20_{tag}_{i}', attrs=attrs) for i, c in enumerate(cases)]
     res = common.run_impl('pC20', 'impl_main', items, extra_env={'PYTHONUTF8': '1'})
     keep, terms = [], []
@@ -353,7 +436,6 @@ def run_cases(run, wd, cases, st, kfs, attrs, tag='cases'):
         terms.append(case_term(c, rec))
         run.count([c['ft'], c['pos'], c['bad']], nontrivial=True)
     evals = ['bad_cases holds_C20', 'bad_cases in_raises', 'bad_cases (fun c => is_some (c_exn c))']
-    evals += [f'bad_cases (fun c => negb ({k} c))' for k in KF_CLASSES]
     header = HEADER
     if st['models_ok']:
         evals.append('bad_cases corr_C20')
@@ -361,10 +443,9 @@ def run_cases(run, wd, cases, st, kfs, attrs, tag='cases'):
     bad, err = common.coq_eval_cases(wd, tag, header, terms, evals)
     if err:
         run.violation({'kind': 'case-evaluation-failed', 'error': err}, no_input=True)
-        return keep, [], [], [], [], {k: [] for k in KF_CLASSES}
-    kf_hits = {k: set(bad[3 + i]) for i, k in enumerate(KF_CLASSES)}
-    corr_bad = bad[3 + len(KF_CLASSES)] if st['models_ok'] else []
-    return keep, bad[0], corr_bad, bad[1], bad[2], kf_hits
+        return keep, [], [], [], []
+    corr_bad = bad[3] if st['models_ok'] else []
+    return keep, bad[0], corr_bad, bad[1], bad[2]
 
 
 def validate_seeds(run, wd, attrs):
@@ -390,33 +471,49 @@ def replay_obj(c, rec, what):
             'replay': './check C20 --replay <this file>'}
 
 
-def classify(run, keep, bad_holds, kf_hits, kfs, printed):
-    """Failing cases: inside the class of an open finding -> KNOWN-FINDING (once per finding), else violation."""
-    open_names = {f['class']: f for f in kfs}
-    n_viol = 0
+def report_failing(run, keep, bad_holds, limit=5):
+    """Every failing case is a violation (no finding is open); at most `limit` replays, one per
+    (format, loader exception class, what main() did) first."""
+    seen, rest = set(), []
+    n = 0
     for i in bad_holds:
         c, rec = keep[i]
-        hit = [k for k in KF_CLASSES if i in kf_hits[k] and k in open_names]
-        if hit:
-            f = open_names[hit[0]]
-            printed.setdefault(f['id'], [f, 0, replay_obj(c, rec, 'known-finding')])[1] += 1
-        elif n_viol < 5:
-            n_viol += 1
+        key = (c['ft'], rec['loader'][0]['cls'] if rec['loader'] else None,
+               rec['uncaught']['cls'] if rec['uncaught'] else rec['status'])
+        if key in seen:
+            rest.append(i)
+            continue
+        seen.add(key)
+        if n < limit:
+            n += 1
             run.violation(replay_obj(c, rec, 'malformed-input-not-reported'))
+    for i in rest:
+        if n >= limit:
+            break
+        n += 1
+        run.violation(replay_obj(*keep[i], 'malformed-input-not-reported'))
 
 
-def model_totality(wd, kfs):
-    """Evaluate, inside Coq, which file types the translated handlers cover and which uncovered classes
-    lie outside the classes of the open findings."""
-    kfl = '[' + '; '.join(f['class'] for f in kfs) + ']' if kfs else '(@nil (c20_case -> bool))'
+def model_totality(wd):
+    """Evaluate, inside Coq, which file types the translated handlers cover and which tabulated classes not."""
     terms = ['map (fun ft => (ft, handler_total raises_table ft)) text_types',
              'map (fun ft => (ft, map fst (failures raises_table ft))) text_types',
-             f'map (fun ft => (ft, uncovered {kfl} raises_table ft)) text_types',
              'main_ok']
     vals, err = common.coq_eval_terms(wd, 'totality', HEADER + MODEL_HEADER, terms)
     if err:
         return None, err
     return [parse_coq_value(v) for v in vals], None
+
+
+def outcome_table(keep, idxs):
+    by = {}
+    for i in idxs:
+        c, rec = keep[i]
+        cls = rec['loader'][0]['cls'] if rec['loader'] else 'accepted'
+        kind = 'crash:' + rec['uncaught']['cls'] if rec['uncaught'] else f'exit{rec["status"]}'
+        by.setdefault(c['ft'], {}).setdefault(cls, {}).setdefault(kind, 0)
+        by[c['ft']][cls][kind] += 1
+    return by
 
 
 def check(tier, seed):
@@ -426,39 +523,41 @@ def check(tier, seed):
     try:
         st = common.build(['theories/HandlersModel.vo'], ['props/PropC20.vo'])
         common.proof_evidence(run, wd, PROP, st, THEOREMS)
-        kfs = open_classes()
+        run.cov['tie'] = st['broken'] or 'intact'
+        note_open_findings(run)
         attrs = attrs_to_record()
         run.cov['seed_documents'] = validate_seeds(run, wd, attrs)
         corpus_path = os.path.join(common.VERIF, 'corpus', 'C20.jsonl')
         cases = [json.loads(l) for l in open(corpus_path) if l.strip()] if os.path.exists(corpus_path) else []
+        run.cov['corpus_cases'] = len(cases)
         gen, stats = gen_cases(tier, rng, per_format=int(os.environ.get('C20_PER_FORMAT', '240')))
         cases += gen
-        keep, bad_holds, bad_corr, bad_raises, accepted, kf_hits = run_cases(run, wd, cases, st, kfs, attrs)
-        printed = {}
+        keep, bad_holds, bad_corr, bad_raises, accepted = run_cases(run, wd, cases, st, attrs)
         # a corruption the loader accepted is not malformed input for graphtage's own parser: counted, not judged
         acc = set(accepted)
-        classify(run, keep, [i for i in bad_holds if i not in acc], kf_hits, kfs, printed)
+        bad_holds = [i for i in bad_holds if i not in acc]
+        report_failing(run, keep, bad_holds)
         run.cov['traces_validated_against_impl'] = len(keep) - len(acc)
         # the model: which file types are covered by the translated handlers
         tot = None
         if st['models_ok']:
-            tot, err = model_totality(wd, kfs)
+            tot, err = model_totality(wd)
             if err:
                 run.violation({'kind': 'model-evaluation-failed', 'error': err}, no_input=True)
         if tot:
-            totals, fails, uncovered, main_ok = tot
+            totals, fails, main_ok = tot
             run.cov['handler_total'] = dict(totals)
             run.cov['model_uncovered_classes'] = {ft: cl for ft, cl in fails if cl}
             run.cov['main_ok'] = main_ok
-            for ft, cl in uncovered:
+            for ft, cl in fails:
                 if not cl:
                     continue
-                # the model says: these loader exceptions are not reported and no open finding covers them.
+                # the model says: these tabulated loader exceptions are not reported (C20_full's premise is false).
                 # a failing input of that class among the cases is the concrete violation; else report the class.
                 hit = [i for i in bad_holds if keep[i][0]['ft'] == ft and keep[i][1]['loader']
                        and keep[i][1]['loader'][0]['cls'] in cl]
                 if not hit:
-                    run.violation({'kind': 'handler-not-total', 'ft': ft, 'exception_classes': cl,
+                    run.violation({'kind': 'handler-not-total', 'ft': ft, 'exception_classes': cl, 'theorem': 'C20_full',
                                    'what': 'the translated handler does not turn these loader exceptions into a message '
                                            'naming the file, and no generated input raised them'}, no_input=True)
         # correspondence: outcome = model's, and every observed loader exception class is tabulated
@@ -466,49 +565,66 @@ def check(tier, seed):
         bad_raises = [i for i in bad_raises if i not in acc]
         bad_corr = [i for i in bad_corr if i not in acc]
         if st['broken'] and not run.violations:
+            # the proof (or the model) no longer builds and no failing input yet: search harder
             more, _ = gen_cases('thorough', random.Random(seed + 1), 0)
+            have = {(c['ft'], c['pos'], c['bad']) for c in cases}
+            more = [c for c in more if (c['ft'], c['pos'], c['bad']) not in have]
             rng.shuffle(more)
-            k2, bh, bc, br, ac2, kh2 = run_cases(run, wd, more[:6000], st, kfs, attrs, tag='search')
-            classify(run, k2, [i for i in bh if i not in set(ac2)], kh2, kfs, printed)
+            k2, bh, bc, br, ac2 = run_cases(run, wd, more[:8000], st, attrs, tag='search')
+            report_failing(run, k2, [i for i in bh if i not in set(ac2)])
+            run.cov['searched_harder'] = len(k2)
             if not run.violations:
-                run.violation({'kind': 'tie-broken', 'what': st['broken']}, no_input=True)
+                run.violation({'kind': 'tie-broken', 'theorem': 'C20_full', 'what': st['broken']}, no_input=True)
         elif not run.violations:
             if bad_raises:
                 c, rec = keep[bad_raises[0]]
                 classes = sorted({(keep[i][0]['ft'], keep[i][1]['loader'][0]['cls']) for i in bad_raises})
                 run.violation(dict(replay_obj(c, rec, 'correspondence-broken'),
                                    what='a loader raised an exception class that is not in raises_table '
-                                        '(the theorem does not cover it)', classes=classes), no_input=True)
+                                        '(C20_full does not cover it)', classes=classes), no_input=True)
             elif bad_corr:
                 c, rec = keep[bad_corr[0]]
                 run.violation(dict(replay_obj(c, rec, 'correspondence-broken'),
                                    what='corr_C20: main() did something else than the translated model predicts',
                                    n=len(bad_corr)), no_input=True)
-        for fid, (f, n, rp) in sorted(printed.items()):
-            run.known(f'id={fid} class={f["class"]} cases={n} {f["what"]}')
-        by = {}
-        for i in judged:
-            c, rec = keep[i]
-            cls = rec['loader'][0]['cls']
-            kind = 'crash:' + rec['uncaught']['cls'] if rec['uncaught'] else f'exit{rec["status"]}'
-            by.setdefault(c['ft'], {}).setdefault(cls, {}).setdefault(kind, 0)
-            by[c['ft']][cls][kind] += 1
+        # out of the property's domain (binary plists): observed and recorded; judged only on request
+        judge_bin = os.environ.get('C20_BINARY_PLIST') == '1'
+        bcases, bstats = gen_cases(tier, random.Random(seed + 2), per_format=200, binary_plist=True)
+        bk, bbh, _, bbr, bacc = run_cases(run, wd, bcases, st, attrs, tag='bplist')
+        bacc = set(bacc)
+        bfail = [i for i in bbh if i not in bacc]
+        run.cov['out_of_domain_binary_plist'] = {
+            'judged': judge_bin, 'generator': bstats['plist'], 'cases': len(bk),
+            'not_reported': len(bfail), 'observed': outcome_table(bk, [i for i in range(len(bk)) if i not in bacc]).get('plist', {}),
+            'note': 'binary plists are not a text format: outside C20; set C20_BINARY_PLIST=1 to judge them'}
+        if judge_bin:
+            report_failing(run, bk, bfail)
+            unseen = [i for i in bbr if i not in bacc and i not in bfail]
+            if unseen and not run.violations:
+                c, rec = bk[unseen[0]]
+                run.violation(dict(replay_obj(c, rec, 'correspondence-broken'),
+                                   what='a loader raised an exception class that is not in raises_table'), no_input=True)
         run.cov['rule'] = ('for each text format (json json5 yaml xml html plist): seed documents incl. non-ASCII text; corruptions = '
-                           'truncation at every byte, deletion/duplication of every byte (delimiters first), of every line and tag, '
-                           'adjacent tag swaps, inserted brackets/tags/NUL/invalid UTF-8 at every offset; kept iff an independent '
-                           'parser rejects; each as FIRST and as SECOND file of the real main(); quick = seeded sample per format, '
-                           'thorough = all; distinct by (format, position, bytes)')
+                           'truncation at every byte, deletion/duplication/bit flips/zeroing of every byte (delimiters first), '
+                           'every delimiter replaced by a mismatching one, first/last/all occurrences of a delimiter dropped, '
+                           'deletion/duplication of every line and tag, adjacent tag swaps, renamed opening tags, plist scalar '
+                           'elements renamed to every other plist element, non-numbers in numeric elements, multi-byte characters cut, '
+                           'inserted brackets/tags/NUL/invalid UTF-8 at every offset, re-encodings (UTF-16/32, Latin-1, cp1252, UTF-7), '
+                           'wrong declared encodings, byte order marks; kept iff an independent parser rejects; each as FIRST and as '
+                           'SECOND file of the real main(); quick = all truncations/line/tag/encoding kinds + seeded sample of the '
+                           'rest per format, thorough = all; distinct by (format, position, bytes)')
         run.cov['generator'] = stats
         run.cov['loader_accepted_not_judged'] = len(acc)
-        run.cov['observed'] = by
-        run.cov['failing_cases'] = len([i for i in bad_holds if i not in acc])
+        run.cov['observed'] = outcome_table(keep, judged)
+        run.cov['failing_cases'] = len(bad_holds)
         run.cov['samples'] = [{k: c[k] for k in ('ft', 'pos', 'kind')} for c, _ in keep[:3]]
         run.assumptions = ['raises_table (exception classes a loader raises on malformed bytes) is established by this fault '
-                           'enumeration only; the theorems take it as a parameter',
+                           'enumeration only; C20_full is proved for that table and the handlers translated from the current source',
                            'CPython rules used by the model: except-clause matching by subclass, object.__format__ with a '
                            'non-empty spec raises TypeError, a missing attribute raises AttributeError, format(x, "") = str(x)',
                            'texts of str(e)/repr(e)/attributes are oracle values recorded from the running code',
-                           'characters outside printable ASCII are serialised as "?" (file names are ASCII)']
+                           'characters outside printable ASCII are serialised as "?" (file names are ASCII)',
+                           'binary plists are outside the property (text formats): observed, not judged unless C20_BINARY_PLIST=1']
         return run.finish()
     finally:
         wd.cleanup()
